@@ -320,6 +320,12 @@ def run_shard(i, n, tier, seed, m):
     core.guarded(direct_driver)(m, i, n, tier)
     core.guarded(design_driver)(m, i, n, tier)
     core.guarded(swap_driver)(m, i, n, tier, seed)
+    cross(i, n, tier, seed, m)
+
+
+def cross(i, n, tier, seed, m):
+    """The same monitors watching other properties' workloads (see core.cross_workloads)."""
+    core.cross_workloads(m, DECIDING, ['C06', 'C10', 'C05'], tier, seed, i, n, 400 if tier == "quick" else 4000)
 
 
 def replay(rec, m):
